@@ -586,3 +586,49 @@ Definition m_gettagref (h : hstate) (type idx : Z) : hstate * mres :=
   | (l1, Some (g, r)) => (hlib h l1, MOk [g; r] [])
   | (l1, None) => (hlib h l1, MFail)
   end.
+
+(* ---- several files used in one process ------------------------------------------------------------------------ *)
+(** Trees, descriptors and slots belong to a file; the DFAN directory cache, Lastref and the enumeration cursors are
+    static variables of dfan.c shared by all files, and DFANIopen decides from the file NAME whether the cached
+    directory may be kept (condition regenerated from the source: [DFANIopen_newfile]). *)
+Record dfstat := mkdf { s_dir : Z -> option (list (list dirent)); s_lastref : Z; s_nextf : Z -> Z; s_nomore : Z -> bool }.
+Definition stat_of (l : lstate) : dfstat := mkdf (l_dir l) (l_lastref l) (l_nextf l) (l_nomore l).
+Definition with_stat (l : lstate) (d : dfstat) : lstate :=
+  mkl (l_dds l) (l_tree l) (l_num l) (l_atoms l) (l_next l) (s_dir d) (s_lastref d) (s_nextf d) (s_nomore d).
+
+Record gstate := mkg {
+  g_files : Z -> hstate;            (* per file: library tables + the harness' slots and session flag *)
+  g_names : Z -> list Z;            (* file names (C strings: no NUL) *)
+  g_cur : Z;                        (* the file the harness works on *)
+  g_stat : dfstat;                  (* dfan.c statics *)
+  g_lastfile : list Z               (* dfan.c Lastfile *)
+}.
+Definition ginit (names : Z -> list Z) : gstate := mkg (fun _ => hinit) names 0 (stat_of linit) [].
+Definition gfile (g : gstate) (n : Z) : gstate := mkg (g_files g) (g_names g) n (g_stat g) (g_lastfile g).
+
+(** the DFAN calls that go through DFANIopen (after their argument checks), with the access mode they pass *)
+Definition dfan_opens (o : op) : option Z :=
+  match o with
+  | ODfPut _ tg rf _ _ => if (tg =? 0) || (rf =? 0) then None else Some DFACC_RDWR
+  | ODfGet _ tg rf _ | ODfGetLen _ tg rf => if (tg =? 0) || (rf =? 0) then None else Some DFACC_READ
+  | ODfLablist tg _ => if tg =? 0 then None else Some DFACC_READ
+  | _ => None
+  end.
+
+(** DFANIopen: a name that differs from Lastfile (or create mode) drops the cached directory *)
+Definition DFANIopen (lastfile name : list Z) (mode : Z) (st : dfstat) : dfstat :=
+  if truth (DFANIopen_newfile lastfile name mode)
+  then mkdf (fun _ => None) (s_lastref st) (s_nextf st) (s_nomore st) else st.
+
+Definition gstep (g : gstate) (o : op) : gstate * mres :=
+  let h := g_files g (g_cur g) in
+  let name := g_names g (g_cur g) in
+  let opens := if h_sess h then None else dfan_opens o in
+  let st1 := match opens with Some mode => DFANIopen (g_lastfile g) name mode (g_stat g) | None => g_stat g end in
+  let lastfile' := match opens with Some _ => name | None => g_lastfile g end in
+  let '(h2, r) := mstep (mkh (with_stat (h_lib h) st1) (h_slots h) (h_sess h)) o in
+  (mkg (upd (g_files g) (g_cur g) h2) (g_names g) (g_cur g) (stat_of (h_lib h2)) lastfile', r).
+
+Definition g_gettagref (g : gstate) (type idx : Z) : gstate * mres :=
+  let '(h2, r) := m_gettagref (g_files g (g_cur g)) type idx in
+  (mkg (upd (g_files g) (g_cur g) h2) (g_names g) (g_cur g) (g_stat g) (g_lastfile g), r).
